@@ -206,6 +206,22 @@ theorem V2_skel_tx_initialize_create (s : Sys) (t : Tx) (tgt : Tgt) (ch : Config
         planTraceTx { effects := [.tx t.index t.version (.setProposals [(tgt, t.index)])] } :=
   skel_tx_initialize_create s t tgt ch q b p h hprops hrb hch hw
 
+/-- INITIALIZING (transaction), proposals not yet listed, a ROLLBACK of a change of ONE target: the rollback
+    proposal (carrying the rollback index) is created unless it exists already - an earlier pass that a
+    failed write or a crash cut short - and in BOTH cases its id is listed in `Status.Proposals`: a
+    restart does not drop a target from the rollback (seeded changes C07-m5, C06-m5) -/
+theorem V2_skel_tx_initialize_create_rollback (s : Sys) (t : Tx) (tgt : Tgt) (ch : Config.VMap) (target : Tx)
+    (h : t.init = .opened) (hprops : t.proposals = none) (hrb : t.isRollback = true)
+    (htgt : s.tx? t.rollbackIndex = some target) (htrb : target.isRollback = false)
+    (hch : target.changes = [(tgt, ch)]) (hw : waitsPrevInit s t = false) :
+    txInitProposals s t =
+      { effects := initCreatesRollback s t target ++ [.tx t.index t.version (.setProposals [(tgt, t.index)])] } ∧
+    proj (v2sk_tx_initialize (gTxInitRbOf t (s.prop? (tgt, t.index)).isNone false false
+        (s.tx? (t.index - 1)).isNone ((s.tx? (t.index - 1)).getD default))) =
+      (initCreatesRollback s t target).flatMap effToksTx ++ [.set "proposals" "append(proposals, proposalID)"] ++
+        planTraceTx { effects := [.tx t.index t.version (.setProposals [(tgt, t.index)])] } :=
+  skel_tx_initialize_create_rollback s t tgt ch target h hprops hrb htgt htrb hch hw
+
 /-- a listed proposal that is not found ends the invocation without a write (every loop) -/
 theorem V2_skel_tx_missing (t : Tx) (p : Proposal) (q : Tx) (b : Bool) :
     (t.validate = .opened → proj (v2sk_tx_validate (gTxOf t true p b q)) = [.set "allValidated" "true", .ret "nil" []]) ∧
